@@ -487,9 +487,17 @@ func TestPackageLeg(t *testing.T) {
 			n = 1
 		}
 		f, cells, vals := pkggen.GenCells(rt, tok, n, false)
-		for i := range f.Cols {
-			// plain formats: the column status byte is C06's subject
-			f.Cols[i].Status &^= rc.ColumnStatus
+		// mostly plain formats (the layout of the column status byte is C06's subject); in a
+		// third of the cases the columns keep the status bit the generator gave them: the values
+		// (NULLs among them) travel behind a status byte each
+		if rapid.IntRange(0, 2).Draw(rt, "columnstatus") != 0 {
+			for i := range f.Cols {
+				f.Cols[i].Status &^= rc.ColumnStatus
+			}
+		} else if rapid.Bool().Draw(rt, "allstatus") {
+			for i := range f.Cols {
+				f.Cols[i].Status |= rc.ColumnStatus
+			}
 		}
 		c := pkgLegCase{Tok: tok, Cols: f.Cols, Vals: vals, Cell: cells}
 		txt := false
